@@ -26,6 +26,7 @@ def Ys.unres : Ys → Ys
   | .dict ks l => .dict ks (YsL.unres l)
   | .sub y => .sub (Ys.unres y)
   | .pval y => .pval (Ys.unres y)
+  | .ofut b n => .ofut b n
 def YsL.unres : YsL → YsL
   | .nil => .nil
   | .cons y l => .cons (Ys.unres y) (YsL.unres l)
@@ -43,6 +44,7 @@ theorem Ys.unres_labelsR : ∀ y : Ys, Ys.labelsR (Ys.unres y) = Ys.labelsR y
   | .dict _ l => by simp [Ys.unres, Ys.labelsR, YsL.unres_labelsR l]
   | .sub _ => rfl
   | .pval y => by simp [Ys.unres, Ys.labelsR, Ys.unres_labelsR y]
+  | .ofut _ _ => rfl
 theorem YsL.unres_labelsR : ∀ l : YsL, YsL.labelsR (YsL.unres l) = YsL.labelsR l
   | .nil => rfl
   | .cons y l => by simp [YsL.unres, YsL.labelsR, Ys.unres_labelsR y, YsL.unres_labelsR l]
@@ -60,6 +62,7 @@ theorem Ys.unres_labelsA : ∀ y : Ys, Ys.labelsA (Ys.unres y) = Ys.labelsA y
   | .dict _ l => by simp [Ys.unres, Ys.labelsA, YsL.unres_labelsA l]
   | .sub y => by simp [Ys.unres, Ys.labelsA, Ys.unres_labelsA y]
   | .pval _ => rfl
+  | .ofut _ _ => rfl
 theorem YsL.unres_labelsA : ∀ l : YsL, YsL.labelsA (YsL.unres l) = YsL.labelsA l
   | .nil => rfl
   | .cons y l => by simp [YsL.unres, YsL.labelsA, Ys.unres_labelsA y, YsL.unres_labelsA l]
@@ -94,6 +97,7 @@ theorem ysR_unres : ∀ (y : Ys) (s : St), ysR (Ys.unres y) s = ysR y s
   | .dict _ l, s => by simp [Ys.unres, ysR, yslR_unres l]
   | .sub _, _ => rfl
   | .pval y, s => by simp [Ys.unres, ysR, ysR_unres y]
+  | .ofut _ _, _ => rfl
 theorem yslR_unres : ∀ (l : YsL) (s : St), yslR (YsL.unres l) s = yslR l s
   | .nil, _ => rfl
   | .cons y l, s => by simp [YsL.unres, yslR, ysR_unres y, yslR_unres l]
@@ -128,6 +132,7 @@ theorem resolveA_unres : ∀ (y : Ys) (s : St), resolveA (Ys.unres y) s = resolv
   | .dict _ l, s => by simp [Ys.unres, resolveA, gatherA_unres l]
   | .sub y, s => by simp [Ys.unres, resolveA, resolveA_unres y]
   | .pval y, s => by simp [Ys.unres, resolveA, resolveA_unres y]
+  | .ofut _ _, _ => rfl
 theorem gatherA_unres : ∀ (l : YsL) (s : St), gatherA (YsL.unres l) s = gatherA l s
   | .nil, _ => rfl
   | .cons y l, s => by simp [YsL.unres, gatherA, resolveA_unres y, gatherA_unres l]
